@@ -45,4 +45,18 @@ pub mod verif {
 			control_done,
 		}
 	}
+
+	/// Build a job handle from its parts, so that a harness keeps the receiving end of the queue.
+	#[must_use]
+	pub fn job_from_parts(
+		command: std::sync::Arc<crate::command::Command>,
+		control_queue: PrioritySender,
+		gone: crate::flag::Flag,
+	) -> super::Job {
+		super::Job {
+			command,
+			control_queue,
+			gone,
+		}
+	}
 }
